@@ -1,0 +1,46 @@
+//go:build verif
+
+// Verification hooks (build tag `verif` only, add-only): a PolicyManager constructor that takes the ipset and
+// iptables handles instead of building exec-backed ones, and accessors that let a harness feed the caches the
+// sync procedures read, so that it can call the exported entry points (Run, AddPolicy, UpdatePolicy,
+// DeletePolicy, UpdatePod, DeletePod) itself, one at a time.
+package policy
+
+import (
+	"k8s.io/client-go/kubernetes"
+	networkingv1Lister "k8s.io/client-go/listers/networking/v1"
+	"k8s.io/client-go/tools/cache"
+	"tkestack.io/galaxy/pkg/utils/ipset"
+	utiliptables "tkestack.io/galaxy/pkg/utils/iptables"
+)
+
+// NewForVerif does what New does, with the given handles and host name.
+func NewForVerif(client kubernetes.Interface, ipsetHandle ipset.Interface, iptablesHandle utiliptables.Interface,
+	hostName string, quitChan <-chan struct{}) *PolicyManager {
+	pm := &PolicyManager{
+		client:        client,
+		ipsetHandle:   ipsetHandle,
+		iptableHandle: iptablesHandle,
+		hostName:      hostName,
+		quitChan:      quitChan,
+	}
+	pm.initInformers()
+	return pm
+}
+
+// VerifSetPolicyLister replaces the lister syncNetworkPolices reads.
+func (p *PolicyManager) VerifSetPolicyLister(l networkingv1Lister.NetworkPolicyLister) { p.policyLister = l }
+
+// VerifPodStore is the cache behind podLister.
+func (p *PolicyManager) VerifPodStore() cache.Store { return p.podCachedInformer.GetStore() }
+
+// VerifNamespaceStore is the cache behind namespaceLister (shared informer of the pod informer factory).
+func (p *PolicyManager) VerifNamespaceStore() cache.Store {
+	return p.podInformerFactory.Core().V1().Namespaces().Informer().GetStore()
+}
+
+// VerifPodsSynced reports whether the pod informer has been started and has synced.
+func (p *PolicyManager) VerifPodsSynced() bool { return p.podCachedInformer.HasSynced() }
+
+// VerifNameHash is the hash used in chain and set names.
+func VerifNameHash(s string) string { return nameHash(s) }
